@@ -78,10 +78,23 @@ def attach_hook(run):
         run.seen("integralform.assemble")
         values = args[0] if args else kwargs.get("values")
         block = kwargs.get("block", args[2] if len(args) > 2 else True)
-        if values is not None or not block:
-            run.skip("integralform.assemble", "values supplied / unblocked result")
-            return
         parallel = kwargs.get("parallel", args[1] if len(args) > 1 else False)
+        if not block:
+            run.skip("integralform.assemble", "unblocked result")
+            return
+        if values is not None:
+            # assemble(values=form.integrate()) is how the solid bodies use a form: accept it when the supplied values are
+            # the form's own integrals (then the assembled result must still be the defining sum)
+            try:
+                own = self.integrate(parallel=False)
+                same = all((a is None and b is None) or (a is not None and b is not None and np.shape(a) == np.shape(b)
+                                                        and np.allclose(a, b, rtol=1e-12, atol=0)) for a, b in zip(own, values))
+            except Exception:
+                same = False
+            if not same:
+                run.skip("integralform.assemble", "values supplied that are not the form's own integrals")
+                return
+            run.units["assemble(values=integrate())"] += 1
         try:
             check_form(run, self, result, parallel=parallel)
         except Exception as e:
